@@ -1,3 +1,3 @@
--- This module serves as the root of the `Corro` library.
--- Import modules here that should be built as part of the library.
-import Corro.Basic
+-- Root of the `Corro` library.  Property theorems are built per module
+-- (`lake build Corro.Props.Cxx`); see tools/setup and tools/check.
+import Corro.Model.Chunker
